@@ -220,6 +220,9 @@ def main(argv):
         pint_bin = None
         if hok and cfg.get("needs_binary"):
             hok, hlog, pint_bin = build_pint()
+        race_bin = None
+        if hok and cfg.get("needs_race_binary") and tier == "thorough":
+            hok, hlog, race_bin = build_pint(race=True)
     if not hok:
         print(hlog)
         print("harness does not build against /repo's working tree")
@@ -239,7 +242,7 @@ def main(argv):
             inp = os.path.join(outdir, "replay-input.json")
             json.dump(body.get("violation", body), open(inp, "w"))
             cmd += ["-replay", inp]
-        rc, out = sh(cmd, env=dict(goenv(), GOMAXPROCS="16", PINT_BIN=pint_bin or ""), timeout=cfg.get("timeout", {}).get(tier, 3000), limit=True)
+        rc, out = sh(cmd, env=dict(goenv(), GOMAXPROCS="16", PINT_BIN=pint_bin or "", PINT_RACE_BIN=race_bin or ""), timeout=cfg.get("timeout", {}).get(tier, 3000), limit=True)
         if rc != 0:
             notes.append("harness exited %d: %s" % (rc, out[-3000:]))
             path = write_replay(prop, seed, 0, {"property": prop, "kind": "harness-crash", "log": out[-6000:]})
@@ -255,8 +258,13 @@ def main(argv):
                 model = open(os.path.join(outdir, "model.txt")).read().splitlines()
                 oplines = open(ops).read().splitlines()
                 corr["ops"] = len(impl)
+                corr["model_stats"] = {}
                 for i, a in enumerate(impl):
                     b = model[i] if i < len(model) else "<driver produced no line>"
+                    if a == "STAT":
+                        k = oplines[i].split("\t", 1)[0] + ": " + b
+                        corr["model_stats"][k] = corr["model_stats"].get(k, 0) + 1
+                        continue
                     if a != b:
                         corr["mismatches"] += 1
                         if corr["first"] is None:
@@ -317,6 +325,7 @@ def main(argv):
             "theorems": pr["axioms"],
             "leanchecker": pr.get("leanchecker", "not run (quick tier)"),
             "correspondence_ops": corr["ops"], "correspondence_mismatches": corr["mismatches"],
+            "model_decided_statistics": corr.get("model_stats", {}),
             "evaluations": summary["evaluations"] if summary else 0,
             "distinct_nontrivial": summary["distinct_nontrivial"] if summary else 0,
             "rule": cfg["rule"],
